@@ -123,7 +123,7 @@ STREAM_ASSUME = ["loopback only", "bounded-time delivery is proved down to 'noth
 class C01(Prop):
     id = "C01"
     module = "MioModel.Props.C01"
-    bins = ["stream"]
+    bins = ["stream", "node"]
     run_bin = "stream"
     rule = ("cases = loopback connections over FramedTcp and Ws: peers {message-io node, raw std TcpStream writer with "
             "adversarial write boundaries in and around every prefix / raw reader, stock tungstenite client and server incl. "
@@ -147,6 +147,8 @@ class C01(Prop):
         core.tie_run(stats, "stream", ["gen-sizes", tier, "W"], lambda c, t: True, cmp)
         # two senders on one endpoint (the send lock): the per-connection sequence is an interleaving of whole messages
         core.tie_run(stats, "stream", ["gen-mt", seed + 3, 2, "F"], lambda c, t: True, cmp)
+        # through the node layer: messages that arrive before the listener call keep their order
+        core.tie_run(stats, "node", ["gen-early", seed + 9, 2], lambda c, t: True, cmp)
         if th:
             core.tie_run(stats, "stream", ["gen-e2e", seed + 1, 40, "FW", "big"], self.nontrivial, cmp)
 
